@@ -129,14 +129,14 @@ def random_cases(family, rng, count):
 
 
 CASE_KEYS = ("fn", "x", "y", "r", "a", "b", "left", "right", "lr", "rr", "start", "stop", "step", "explicit_none", "q", "n", "mode",
-             "qcontainer", "c", "normalized", "axis", "other", "lo", "hi", "op", "v", "container", "method", "m")
+             "qcontainer", "c", "normalized", "axis", "other", "lo", "hi", "op", "v", "container", "method", "m", "b")
 
 
 def case_of_event(ev):
     return {k: ev[k] for k in CASE_KEYS if k in ev}
 
 
-def run_family(pid, family, rule, negatives, nrandom=(400, 4000), nontrivial=lambda e: True, prefixes=None):
+def run_family(pid, family, rule, negatives, nrandom=(400, 4000), nontrivial=lambda e: True, prefixes=None, extra=None):
     import copy
     import json
     from driver import Check
@@ -148,6 +148,8 @@ def run_family(pid, family, rule, negatives, nrandom=(400, 4000), nontrivial=lam
         cases += from_emission(j)
     lattice = len(cases)
     cases += random_cases(family, c.rng, nrandom[1] if c.thorough else nrandom[0])
+    if extra:
+        cases += extra(r.json_lines, c.rng, c.thorough)
     if c.replay_path:
         cases = [case_of_event(json.load(open(c.replay_path))["event"])]
     evs = c.run_cases(cases, execute)
